@@ -86,7 +86,7 @@ func registry() map[string]*propSpec {
 			Rule: "each run = a pool of 6-18 (thorough: up to 43) heterogeneous calls (Marshal with adversarial values and panicking/erroring/re-entering peers, MarshalWrite with offset-keyed write faults, Unmarshal/UnmarshalRead of valid and invalid texts into 15 target types with offset-keyed read cuts and faults, Format/Compact/Indent/Canonicalize/IsValid/AppendFormat, v1 calls, user-owned Encoder programs incl. reuse after Reset, 1 MiB documents, >1000-deep values that switch cycle tracking on), executed in a drawn order as 1-16 cooperative tasks that switch at reader/writer/callback seams, with pool faults (explicit double GC, drain+permute, drop, arshaler-cache reset) at drawn steps; every outcome compared with the same call alone from pristine pools and caches; returned byte slices re-checked at the end; inputs overwritten after Unmarshal; pooled objects checked for duplicates and for being in use. distinct = hash of (context-switch sequence, task count, call kinds, pool faults); non-trivial = tasks really interleaved or a pool fault fired.",
 			Real: realAll, Stub: append([]string{"user marshal methods and functions (scripted peers)", "task scheduling (cooperative, one task at a time, switch points at seams)"}, stubIO...)},
 		"C16": {Scenario: "dec+enc", Make: func() scen.Scenario {
-			return &scen.Multi{Parts: []scen.Part{{W: 3, S: &scen.Dec{Mode: "c16"}}, {W: 1, S: &scen.Enc{Mode: "c16"}}}}
+			return &scen.Multi{Parts: []scen.Part{{W: 6, S: &scen.Dec{Mode: "c16"}}, {W: 2, S: &scen.Enc{Mode: "c16"}}, {W: 1, S: &scen.Enc{Mode: "c07"}}, {W: 2, S: &scen.SemErr{}}, {W: 1, S: &scen.PointerAlgebra{}}}}
 		}, QuickRuns: 200000, ThorRuns: 12000000,
 			Rule: "dec scenario with the independent reference recognizer armed: observers after every call vs reference push-down model; rejected inputs vs the offset/pointer relation. distinct as for C05; non-trivial = chunked read schedule landed inside the run.",
 			Real: realAll, Stub: stubIO},
